@@ -311,6 +311,25 @@ def alternatives(t):
     return [t]
 
 
+def opaque_parts(t):
+    """Sub-terms the reconstruction could not interpret: unknown values and calls of something that is not a known function
+    (a callable fetched from a data structure, the result of another call).  A term with such parts cannot be shown to
+    DIFFER from a specification - only not shown equal."""
+    out = []
+    for x in walk(t):
+        if not (isinstance(x, tuple) and x):
+            continue
+        if x[0] == "unk" and str(x[1]).startswith(("comp:", "modlevel:", "classattr:", "cyclic", "depth", "with:", "mutated:", "attr-entry", "dict", "set",
+                                                   "NamedExpr", "Await", "Starred", "GeneratorExp", "ListComp", "DictComp", "SetComp", "Match")):
+            out.append(x)
+        elif x[0] == "call" and isinstance(x[1], str):
+            nm = x[1]
+            known = nm.startswith(("ext:", ".", "new:", "super", "construct:", "?global:")) or "::" in nm or nm.isidentifier() or nm == "*"
+            if not known:
+                out.append(x)
+    return out
+
+
 def leaves(t):
     """Leaf atoms whose value a valuation must supply."""
     out = []
